@@ -15,6 +15,7 @@ class Job:
         self.L, self.K, self.scripts, self.statics, self.tag = L, K, scripts, list(statics), tag
         self.unit_text, self.cxx_extra, self.exe = unit_text, list(cxx_extra), None
         self.skip_header = skip_header      # units that are not instantiated for a parameter list
+        self.raw_file = None                # script file text written as is (static sweep)
 
 
 K_DEFAULT = (0, 0, 0, 1, 0)     # like std::allocator: always equal, nothing propagates
@@ -349,6 +350,53 @@ class SharedFamily(Family):
         return jobs
 
 
+class SweepFamily(Family):
+    """static sweep: the compile-time layout machinery (storage alignment, trailing
+    alignments, run tables, padding-free flag, element sizes and needed memory for several
+    fixed-size vectors) of a few hundred random parameter lists per run, without any vector
+    operation - a change to the layout calculus is visible on every list that reaches the
+    changed branch, not only on the few dozen lists the operation families instantiate"""
+
+    def __init__(self, nunits=3, per_unit=80):
+        super().__init__()
+        self.nunits, self.per_unit = nunits, per_unit
+
+    def corpus(self, prop):
+        return []
+
+    def jobs(self, rng, tier):
+        nunits = self.nunits if tier == "quick" else self.nunits * 4
+        jobs = []
+        seen = set()
+        for u in range(nunits):
+            Ls = []
+            while len(Ls) < self.per_unit:
+                L = gen.random_list(rng)
+                if gen.list_key(L) in seen:
+                    continue
+                seen.add(gen.list_key(L))
+                Ls.append(L)
+            text = ['#include "driver.hpp"', "using namespace vh;", "using A = LedgerAlloc<std::byte,false,false,false,true,false>;",
+                    "int main(int argc, char** argv) {", "  if (argc < 2) return 2;", "  auto sec = parse_sections(argv[1]);"]
+            raw, scripts = [], []
+            for i, L in enumerate(Ls):
+                sid = "u%dl%d" % (u, i)
+                ps = ", ".join("P<%d,%d,%d,%d>" % (p.kind, p.ty, p.size, p.align) for p in L)
+                text.append('  static_section<A, %s>("%s", sec);' % (ps, sid))
+                lines = statics_for(L, rng, n=5)
+                raw.append("LIST %s" % sid)
+                raw += ["P %d %d %d %d" % (p.kind, p.size, p.align, p.ty) for p in L]
+                raw += lines + ["ENDLIST"]
+                scripts.append((sid, lines, None))
+                self.add_stats({"sweep-lists": 1, "sweep-lists-with-varying" if lay.has_varying(L) else "sweep-lists-fixed-or-plain": 1})
+            text += ["  return 0;", "}", ""]
+            j = Job([], K_DEFAULT, scripts, tag="sweep%d" % u, unit_text="\n".join(text), skip_header=True)
+            j.raw_file = "\n".join(raw) + "\n"
+            j.lists = {"u%dl%d" % (u, i): L for i, L in enumerate(Ls)}
+            jobs.append(j)
+        return jobs
+
+
 class Multi(Family):
     def __init__(self, *fams):
         super().__init__()
@@ -449,18 +497,18 @@ def shrink(v, prop, run_pair, canon, split_blocks, first_diff, orc, rundir, budg
 for p in ("C08", "C09"):
     FAMILIES[p] = SpecialFamily()
 for p in ("C03", "C04"):
-    FAMILIES[p] = HistFamily()
-FAMILIES["C10"] = HistFamily(strict_block=False, nhist=10, nfill=10, via_reserve=True)
+    FAMILIES[p] = Multi(HistFamily(), SweepFamily())
+FAMILIES["C10"] = Multi(HistFamily(strict_block=False, nhist=10, nfill=10, via_reserve=True), SweepFamily(nunits=2))
 FAMILIES["C16"] = Multi(HistFamily(nlists=16, nhist=8), SpecialFamily(nlists=6, nscripts=8))
 FAMILIES["C18"] = Multi(EmptyFamily(), HistFamily(nlists=8, nhist=6, nfill=2))
-FAMILIES["C01"] = HistFamily(allow_overlap=True)
-FAMILIES["C05"] = Multi(HistFamily(nlists=16, nhist=8), SpecialFamily(nlists=6, nscripts=8))
+FAMILIES["C01"] = Multi(HistFamily(allow_overlap=True), SweepFamily())
+FAMILIES["C05"] = Multi(HistFamily(nlists=16, nhist=8), SpecialFamily(nlists=6, nscripts=8), SweepFamily())
 FAMILIES["C07"] = Multi(HistFamily(nlists=16, nhist=8), SpecialFamily(nlists=6, nscripts=8))
 FAMILIES["C06"] = Multi(HistFamily(nlists=16, nhist=8, allow_overlap=True), SpecialFamily(nlists=6, nscripts=8))
-FAMILIES["C02"] = HistFamily(strict_block=False, nhist=6, nfill=16)
-FAMILIES["C13"] = CompareFamily()
-FAMILIES["C14"] = CompareFamily()
-FAMILIES["C11"] = ProxyFamily()
+FAMILIES["C02"] = Multi(HistFamily(strict_block=False, nhist=6, nfill=16), SweepFamily())
+FAMILIES["C13"] = Multi(CompareFamily(), SweepFamily(nunits=2))
+FAMILIES["C14"] = Multi(CompareFamily(), SweepFamily(nunits=2))
+FAMILIES["C11"] = Multi(ProxyFamily(), SweepFamily(nunits=2))
 FAMILIES["C12"] = ElemFamily()
 FAMILIES["C15"] = ConstructFamily()
 FAMILIES["C17"] = FaultFamily()
